@@ -103,7 +103,9 @@ def run(repo, tier):
     r.rule("R19.5", "real_samples: for every sample count 2..33, 100, 1000 and ten bit-pattern distances up to 2**63-1 the offsets start at 0, end at the distance, never decrease and are equally spaced up to one unit", floor=3)
     r.rule("R19.2", "product generators forward every shared option unchanged and axis k's size/bounds to the k-th inner call", floor=30)
 
-    f = repo.func(REL, "real_samples")
+    from sa.core import inline_helpers
+
+    f = inline_helpers(repo, REL, repo.func(REL, "real_samples"))
     cn = canon_locals(f)
     # arrays whose length is the sample count: built from `... for i in range(0, COUNT * step, step)` or a call with num=COUNT
     count_of = {}
